@@ -23,6 +23,7 @@ func init() {
 		ID: "C08",
 		Explanation: `R08.1 accounting: every op written by the diff's op writer updates exactly one of FreshBytes/ReusedBytes before the write; R08.2 both sides use the same weak (βhash) and strong (uniqueHash) hash functions; ` +
 			`R08.3 after a match the rolling state is reset and the library lookup is skipped only while rolling with an unchanged hash; R08.4 library completeness: NewBlockLibrary inserts every hash, and findUniqueHash gives up (returns nil) only after its fallback loop exhausted the whole bucket. ` +
+			`R08.6 every way round the loop from the rolling-checksum update back to it slides the hash window by one byte (or restarts the hash from scratch). ` +
 			`NOT decided (numerical): that the rolling update equals βhash at every offset, the per-edit bound, the values of FreshBytes/ReusedBytes.`,
 		Run:        runC08,
 		Fixtures:   fixturesAlias,
@@ -638,6 +639,55 @@ func runC08(c *core.Ctx) {
 				}
 				c.Check(skipOK, "R08.3", core.FnName(cd), "library lookup skipped only while rolling", core.InstrPos(lookup),
 					"the skip flag is set only on the rolling branch", "the library lookup can be skipped for a window hashed from scratch: matches right after a match or at the start are missed")
+				// ---- R08.6: one rolling update per slide. The update replaces the byte that left the window by
+				// the byte that entered it; applied twice to a window that has not moved it yields a sum that
+				// belongs to no window, every later update inherits the error, and the differ never finds a
+				// match again. Between two rolling updates the window start must have advanced.
+				c.Rule("R08.6", "one rolling update per slide of the window")
+				if upd := rollIf.Block().Succs[0]; len(upd.Instrs) > 0 {
+					// the window: the struct whose tail/head fields bound the slice hashed from scratch
+					var window ssa.Value
+					core.Instrs(cd, func(in ssa.Instruction) {
+						cl, ok := in.(*ssa.Call)
+						if !ok || !strings.HasSuffix(core.CalleeName(cl), "wsync.βhash") || len(cl.Call.Args) == 0 {
+							return
+						}
+						for _, o := range core.Origins(cl.Call.Args[0]) {
+							if sl, ok := o.(*ssa.Slice); ok && sl.Low != nil {
+								if b, n, ok := core.FieldOf(sl.Low); ok && n == "tail" {
+									window = b
+								}
+							}
+						}
+					})
+					if window == nil {
+						c.Missing("R08.6", core.FnName(cd), "the hash window (the struct whose tail bounds the slice given to βhash) was not found")
+					} else {
+						isSlide := func(in ssa.Instruction) bool {
+							st, ok := in.(*ssa.Store)
+							if !ok {
+								return false
+							}
+							b, n, ok := core.FieldOf(st.Addr)
+							if !ok || n != "tail" || b != window {
+								return false
+							}
+							bo, ok := st.Val.(*ssa.BinOp)
+							if !ok || bo.Op != token.ADD {
+								return false
+							}
+							k, isC := core.ConstInt(bo.Y)
+							return isC && k == 1
+						}
+						nSl := len(allInstrs(cd, isSlide))
+						c.Floor("R08.6", "one-byte slides of the hash window", nSl, 1)
+						x := upd.Instrs[0]
+						p := core.FindPath(cd, x, isInstr(x), isSlide)
+						c.Check(p == nil, "R08.6", core.FnName(cd), "the window slides between two rolling updates", core.InstrPos(x),
+							"every way round the loop from the rolling update back to it advances the window start by one (or restarts the hash from scratch)",
+							"an iteration can end without sliding the window and the next one applies the rolling update again: the weak hash no longer belongs to any window, nothing matches from there on, and everything after that point is sent as fresh data").Path = c.P.PathStrings(p)
+					}
+				}
 			}
 		}
 	}
